@@ -221,7 +221,22 @@ class Raster(Suite):
         finally:
             for k, ctor in saved.items():
                 setattr(mod, k, ctor)
-        return {"shape": list(img.shape), "lit": np.argwhere(img > 0).tolist(), "values": sorted(set(int(v) for v in np.unique(img))), "solids": solids}
+        res = {"shape": list(img.shape), "lit": np.argwhere(img > 0).tolist(), "values": sorted(set(int(v) for v in np.unique(img))), "solids": solids}
+        if img.size and case["tree"]["n"] % 2 == 0:
+            # the same raster written slice by slice to a TIFF and read back through the image-stack reader: (Z, X, Y) ↔ (X, Y, Z, C)
+            import tempfile, shutil, os
+            from swcgeom.images.io import read_imgs
+
+            tmp = tempfile.mkdtemp(prefix="c20r_")
+            try:
+                fn = os.path.join(tmp, "r.tif")
+                ToImageStack(case["res"]).transform_and_save(fn, t, verbose=False)
+                back = np.asarray(read_imgs(fn, dtype=np.uint8).get_full())
+                res["saved"] = {"shape": list(back.shape), "same": bool(back.shape == (img.shape[1], img.shape[2], img.shape[0], 1)
+                                                                          and np.array_equal(back[..., 0], np.moveaxis(img, 0, 2)))}
+            finally:
+                shutil.rmtree(tmp, ignore_errors=True)
+        return res
 
     def lines(self, case, res):
         if "exc" in res:
@@ -271,6 +286,9 @@ class Raster(Suite):
                 return [("raster-empty-z-grid-raises", f"resolution {rs} leaves no z plane in the bounding box {lo}..{hi}: ToImageStack.__call__ raises {res['exc']}: {res.get('msg')} instead of returning a (0, X, Y) stack")]
             return [("raster-raises", f"{res['exc']}: {res.get('msg')}")]
         out = []
+        if "saved" in res and not res["saved"]["same"]:
+            out.append(("raster-saved-differs", f"transform_and_save + read_imgs gives a stack of shape {res['saved']['shape']} (X,Y,Z,C) that is not the rasterised "
+                                                 f"(Z,X,Y) = {res['shape']} stack with Z moved to the third axis"))
         if res["shape"] != want_shape:
             out.append(("raster-shape", f"stack shape (Z,X,Y)={res['shape']}, the bounding box {lo}..{hi} at resolution {rs} needs {want_shape}"))
             return out
